@@ -61,6 +61,18 @@ ids('C04', {731: 'container not usable after a panic in user code', 732: 'operat
             213: 'is_empty', 214: 'len() > capacity() after a panic', 215: 'yielded key does not look up', 612: 'map not empty after drain', 100: 'pre-state',
             201: '', 202: '', 203: '', 204: '', 205: '', 206: '', 207: '', 208: ''})
 ids('C05', {733: 'container-raised panic expected/unexpected', 201: '', 202: '', 203: '', 204: '', 205: '', 206: '', 207: ''})
+ids('C11', {1101: 'entry kind (Occupied/Vacant) does not match presence', 1102: 'reference returned by or_insert* is not the value place of the key',
+            1103: 'closure / Default call count', 1106: 'OccupiedEntry get/get_mut/insert/into_mut', 1107: 'OccupiedEntry remove/remove_entry', 1108: 'VacantEntry::insert',
+            100: '', 201: '', 202: '', 203: '', 204: '', 205: '', 206: '', 207: ''})
+ids('C11 C12 C02', {1104: 'entry API: fate of the supplied key/value objects', 1105: 'entry API: key()/into_key() identity'})
+ids('C13', {1301: 'get_disjoint_mut position differs from get_mut', 1302: 'two returned mutable references alias', 1303: 'returned reference outside the map',
+             1304: 'write through a returned reference not observed', 1305: 'equal and present keys did not panic', 1306: 'pairwise different keys panicked', 811: 'map changed', 201: ''})
+ids('C15', {1501: 'clone contents', 1502: 'clone != original', 1503: 'an element was not cloned exactly once / clone does not hold the fresh objects',
+            1504: 'clone not independent of the original', 201: '', 202: '', 203: '', 204: '', 205: '', 206: '', 207: '', 208: '', 302: '', 904: ''})
+ids('C16', {1601: 'bulk construction differs from one-by-one insertion', 1602: 'source not consumed exactly once, front to back', 1603: 'overflow panic iff more than N distinct keys',
+            201: '', 202: '', 203: '', 204: '', 205: '', 206: '', 207: '', 208: '', 708: ''})
+ids('C18', {1801: 'insert_unchecked differs from insert', 1802: 'get_disjoint_unchecked_mut differs from get_disjoint_mut', 1302: '', 1303: '', 811: '',
+            201: '', 202: '', 203: '', 204: '', 205: '', 206: '', 207: '', 208: '', 211: '', 212: '', 213: '', 214: '', 215: '', 302: '', 901: '', 903: '', 904: '', 905: ''})
 ids('C06', {501: 'returned reference points outside the container value'})
 
 # engine-level result classes that count for every property whose harness shows them
@@ -118,8 +130,24 @@ fam('c04_set_extend', 'g_panic', [(1, 2), (2, 3), (3, 3)], [(4, 4)])
 fam('c04_set_algebra', 'g_panic', [(1, 1), (2, 2), (3, 2)], [(3, 3), (4, 2)])
 fam('c05_panics', 'g_panic', [0, 1, 2, 3], [4, 5], profiles=('rel', 'dbg'))
 
+fam('c11_or', 'g_entry', [1, 2, 3], [4, 5], dprofiles=('rel', 'dbg'))
+fam('c11_variants c11_key_and_modify', 'g_entry', [0, 1, 2, 3], [4, 5], dprofiles=('rel', 'dbg'))
+
+fam('c13_disjoint', 'g_misc', [(0, 0), (2, 0), (0, 2), (1, 1), (2, 1), (1, 2), (2, 2), (3, 2), (2, 3), (3, 3)], [(4, 3), (3, 4), (4, 4), (5, 2)], profiles=('rel', 'dbg'))
+fam('c13_disjoint_tok', 'g_misc', [1, 2, 3], [4, 5])
+fam('c15_clone c15_set_clone c16_from_array c16_set_from_array', 'g_misc', [0, 1, 2, 3], [4, 5], dprofiles=('rel', 'dbg'))
+fam('c16_from_iter', 'g_misc', [(0, 1), (1, 2), (2, 3), (3, 4), (2, 4)], [(3, 5), (4, 5)], dprofiles=('rel', 'dbg'))
+fam('c16_set_from', 'g_misc', [(1, 2), (2, 3), (3, 4)], [(4, 5)])
+fam('c18_insert_unchecked', 'g_misc', [1, 2, 3], [4, 5], profiles=('rel', 'dbg'))
+fam('c18_disjoint_unchecked', 'g_misc', [(2, 0), (1, 1), (2, 2), (3, 2), (2, 3), (3, 3)], [(4, 3), (3, 4), (4, 4)], profiles=('rel', 'dbg'))
+
 # --------------------------------------------------------------------------------------- properties
 PROPS = {
+    'C13': dict(fams='c13_disjoint c13_disjoint_tok'),
+    'C15': dict(fams='c15_clone c15_set_clone'),
+    'C16': dict(fams='c16_from_iter c16_from_array c16_set_from c16_set_from_array c07_extend c07_extend_ref'),
+    'C18': dict(fams='c18_insert_unchecked c18_disjoint_unchecked'),
+    'C11': dict(fams='c11_or c11_variants c11_key_and_modify'),
     'C04': dict(fams=C04F1 + ' c04_lookup c04_entry c04_disjoint c04_from_iter c04_set_extend c04_set_algebra'),
     'C05': dict(fams='c05_panics c01_insert c01_insert_kv c01_checked_insert c01_remove c01_remove_entry c01_retain c01_clear c01_drain_all c01_lookup c01_index '
                      'c07_insert c07_replace c07_remove c07_take c07_retain c10_drain'),
